@@ -287,6 +287,14 @@ def load_configuration(kind, pdo_no):
     writable object with a DCF value is downloaded, and nothing touches the PDO objects afterwards."""
     subs = (1, 2, 3, 5, 6)
     od, ci, mi = _od(kind, pdo_no, subs)
+    # the PDO of the other direction with the same number exists as well (it does on every real device); it is
+    # configured as disabled and without mapping
+    oci, omi = (ci + 0x400, mi + 0x400) if kind == "rpdo" else (ci - 0x400, mi - 0x400)
+    od.add_object(C.pdo_comm_record(oci, "other comm", subs))
+    od.add_object(C.pdo_map_array(omi, "other map"))
+    od[oci][1].value = 0x80000000 | 0x3F0
+    od[oci][2].value = 255
+    od[omi][0].value = 0
     cob = sx.fresh_int("cob", 1, 0x7FF)
     enabled = bool(sx.choice(2, "enabled"))
     tt = sx.fresh_int("tt", 0, 255)
@@ -348,8 +356,10 @@ def load_configuration(kind, pdo_no):
     sx.prove(sx.any_([(i == 0x2100) & (s_ == 1) & (v == pv) for i, s_, v in dev.other]) is not False and
              any(i == C.TYPE_INDEX[0x07] for i, s_, v in dev.other), "ordinary objects downloaded", tag + "/others")
     sx.prove(sx.any_([(i == 0x2100) & (s_ == 1) & (v == pv) for i, s_, v in dev.other]), "member value", tag + "/member")
-    sx.prove(all(not (0x1400 <= i < 0x1C00) for i, s_, v in dev.other), "PDO object written by the generic loop",
-             tag + "/pdo-by-generic-loop")
+    sx.prove(all(not (0x1400 <= i < 0x1C00) or i in (oci, omi) for i, s_, v in dev.other),
+             "PDO object written by the generic loop", tag + "/pdo-by-generic-loop")
+    sx.prove(any(i == oci and s_ == 1 for i, s_, v in dev.other), "the PDO of the other direction was not configured",
+             tag + "/other-direction")
     sx.reach("load-configuration")
 
 
